@@ -4,4 +4,3 @@ func thoroughImpl(prop, repo string, rules []*Rule, base *Prog) (map[string]any,
 	return map[string]any{}, nil
 }
 
-func runSelftest(repo string, args []string) int { return 0 }
